@@ -192,6 +192,26 @@ def decision (ps : List Policy) (req : Request) : Bool :=
   else if (enforced .allow ps).isEmpty then true
   else (enforced .allow ps).any (policyMatches · req)
 
+/-! ## CUSTOM
+
+A CUSTOM policy delegates the decision to its extension provider (taken to allow here: the external
+authorizer's answer is outside the statement).  It is enforced as DENY - the documented fail-closed
+behaviour - when its provider is not defined in the mesh config, or when the workload's CUSTOM
+policies name several providers while the multi-provider feature is off.  A dry-run CUSTOM policy
+has no effect. -/
+
+def customBad (c : CustomOpts) (ps : List Policy) (p : Policy) : Bool :=
+  let cps := ps.filter (·.action == .custom)
+  (cps.any (fun a => cps.any fun b => a.provider != b.provider) && !c.multi) || !c.providers.contains p.provider
+
+def customDenies (c : CustomOpts) (ps : List Policy) (req : Request) : Bool :=
+  (enforced .custom ps).any fun p => customBad c ps p && policyMatches p req
+
+/-- Decision with the CUSTOM part. -/
+def specDecisionAll (w : Workload) (bundle : List Str) (c : CustomOpts) (ps : List Policy) (req : Request) : Bool :=
+  !(customDenies c ((ps.filter (applies w)).map (expandPolicy bundle)) req) &&
+  decision ((ps.filter (applies w)).map (expandPolicy bundle)) req
+
 /-- The decision the policy semantics define for a request to workload `w` in a mesh with the
     trust domain bundle `bundle`. -/
 def specDecision (w : Workload) (bundle : List Str) (ps : List Policy) (req : Request) : Bool :=
